@@ -66,6 +66,28 @@ def in_lock_scope(fn, lock_pred, target_stmt):
     return False
 
 
+def single_defs(fn):
+    """{local: initialiser} for locals declared once with an initialiser and never assigned afterwards."""
+    out, cnt = {}, {}
+    for st in stmts(fn.body):
+        if st.get("k") == "decl" and st.get("n"):
+            cnt[st["n"]] = cnt.get(st["n"], 0) + 1
+            if is_expr(st.get("i")):
+                out[st["n"]] = st["i"]
+    return {k: v for k, v in out.items() if cnt[k] == 1 and len(local_values(fn, k)) == 1}
+
+
+def expand_local(fn, e, only=None):
+    """e with a single-definition local (pointer / shared_ptr / bool named for readability) replaced by its initialiser."""
+    sd = single_defs(fn)
+    e = _strip(e)
+    seen = set()
+    while match(["local", ANY], e) and e[1] in sd and e[1] not in seen and (only is None or only(sd[e[1]])):
+        seen.add(e[1])
+        e = _strip(sd[e[1]])
+    return e
+
+
 def _cond_guards(s):
     return [g for g in s.guards if g.kind in ("if", "sc", "case", "loop")]
 
@@ -250,7 +272,9 @@ def block_events(ctx, P, cg):
             reads = [s for s in sites(dt, is_read, P)]
             discs = [s for s in sites(dt, is_disc, P)]
             blk = resolve(a[0])
-            ok = match(["mcall", "CChain::Tip", CH], init) and len(tips) == 1 and match(["u", "*", [".", pidx, "CBlockIndex::pprev"]], call_args(tips[0].expr)[0]) and \
+            ok = match(["mcall", "CChain::Tip", CH], init) and len(tips) == 1 and (match(["u", "*", [".", pidx, "CBlockIndex::pprev"]], call_args(tips[0].expr)[0]) or
+                                                                                 (match(["u", "*", ["local", ANY]], call_args(tips[0].expr)[0]) and
+                                                                                  match([".", pidx, "CBlockIndex::pprev"], expand_local(dt, call_args(tips[0].expr)[0][2])))) and \
                 len(reads) == 1 and match(["u", "*", pidx], call_args(reads[0].expr)[1]) and show(resolve(call_args(reads[0].expr)[0])) == show(blk) and \
                 len(discs) == 1 and match(pidx, call_args(discs[0].expr)[1]) and show(resolve(call_args(discs[0].expr)[0])) == show(blk)
             detail = {"index": show(pidx), "index_init": show(init) if is_expr(init) else None, "block": show(blk)}
@@ -271,15 +295,18 @@ def block_events(ctx, P, cg):
         a = [_strip(x) for x in call_args(s.expr)]
         ok = False
         detail = {"range": show(rng) if is_expr(rng) else None, "bindings": binds, "args": [show(x) for x in a]}
-        if match(["local", ANY], rng) and binds and len(binds) == 2 and len(a) == 3:
+        var = lp["var"].get("n") if lp is not None and lp.get("k") == "foreach" else None
+        if match(["local", ANY], rng) and len(a) == 3 and ((binds and len(binds) == 2) or var):
             d = [st for st in stmts(ab.body) if st.get("k") == "decl" and st.get("n") == rng[1]]
             steps = [c for c in sites(ab, lambda e: e[0] == "mcall" and e[1] == "Chainstate::ActivateBestChainStep", P) if any(match(rng, x) for x in call_args(c.expr))]
-            ig = F.mk_and([g.formula(naming(ab, P)) for g in s.guards if g.kind in ("if", "sc", "case") and g.line >= lp.get("l")])
+            ig = F.mk_and([g.formula(naming(ab, P)) for g in s.guards if g.kind in ("if", "sc", "case", "post") and g.line >= lp.get("l")])
             ig, _, _ = F.bind_atoms(ig, {"SIGNALS": re.compile(r".*m_options\.signals")})
             inner_guards = not F.implies(F.parse("SIGNALS"), ig)   # anything beyond "a signals object exists" skips blocks
             ok = len(d) == 1 and "ConnectedBlock" in d[0].get("ty", "") and bool(steps) and not has_break(lp.get("b")) and \
-                not [x for x in stmts(lp.get("b")) if x.get("k") in ("continue", "ret")] and not inner_guards and \
-                match(["local", binds[1]], a[1]) and match(["local", binds[0]], a[2]) and lp.get("l") > max(c.line for c in steps)
+                not [x for x in stmts(lp.get("b")) if x.get("k") == "ret"] and not inner_guards and \
+                ((bool(binds) and match(["local", binds[1]], a[1]) and match(["local", binds[0]], a[2])) or
+                 (bool(var) and match([".", ["local", var], "ConnectedBlock::pblock"], a[1]) and match([".", ["local", var], "ConnectedBlock::pindex"], a[2]))) and \
+                lp.get("l") > max(c.line for c in steps)
         ctx.ob("ActivateBestChain/connected-in-order@L%s" % s.line, "ORDER", "BlockConnected is emitted in a complete range-for (no break/continue/extra condition) over the "
                "connected_blocks vector filled by ActivateBestChainStep, forwarding each element's (pblock, pindex)", bool(ok), s.where, detail)
         ctx.ob("ActivateBestChain/connected-under-cs_main@L%s" % s.line, "ORDER", "BlockConnected is enqueued inside the scope of LOCK(cs_main)", in_lock_scope(ab, cs_main, s.stmt), s.where)
@@ -428,7 +455,7 @@ def mempool_events(ctx, P, cg):
         ctx.ob("removeUnchecked/signal-before-erase@L%s" % st.get("l"), "ORDER", "TransactionRemovedFromMempool is emitted before the entry is erased from mapTx (the iterator is still valid)",
                "erased" not in state, "%s:%s" % (ru.file, st.get("l")))
         a = [_strip(x) for x in call_args(e)]
-        ok = len(a) == 3 and match(["mcall", "CTxMemPoolEntry::GetSharedTx", itp], a[0]) and match(["param", rsn], a[1])
+        ok = len(a) == 3 and match(["mcall", "CTxMemPoolEntry::GetSharedTx", itp], expand_local(ru, a[0])) and match(["param", rsn], a[1])
         seq_ok = False
         if ok and match(["local", ANY], a[2]):
             vals = [v for _, v in local_values(ru, a[2][1])]
